@@ -379,22 +379,25 @@ def _writer_elem(x, r, MLL):
     return next(iter(nx)) if len(nx) == 1 else None
 
 
-def max_over_all(ctx, body, arg_names, effects, base, elem, elem_of, source, need_base=False):
+def max_over_all(ctx, body, arg_names, effects, base, elem, elem_of, source, need_base=False, counts=None, accept_atom=None, row_ok=None, no_inline=None, rule='R02.4'):
     """the function's result is the maximum of a base value and one value per element of a collection, whatever the form:
     a loop with std::cmp::max, fold, map().max().unwrap_or(base) (leaves of nested max calls; leaves equal to the base are
     neutral), or a running maximum kept by comparisons (`if v > max { max = v }`: the ordering atoms decided on the row
     must place every candidate below the value returned)."""
-    I = FDI(ctx.f, effects=[NEXT] + list(effects), loop_k=2, no_inline=effects)
+    I = FDI(ctx.f, effects=[NEXT] + list(effects), loop_k=2, no_inline=effects if no_inline is None else no_inline, max_steps=20000)
     rows = I.run(body.path, arg_names=arg_names)
     n = 0
     lens = set()
+    src_ok = source if callable(source) else (lambda x: source in T.fields_in(x))
     for r in rows:
         if r.undecided:
-            raise CheckError(f"R02.4 {body.path}: UNDECIDED {r.undecided}")
+            raise CheckError(f"{rule} {body.path}: UNDECIDED {r.undecided}")
+        if row_ok is not None and not row_ok(r):
+            continue
         nexts = [e for e in r.effects if re.search(NEXT, e[0])]
         for e in nexts:
-            if source not in T.fields_in(e[2]['x'][0]):
-                return False, f"iterates {r.long(e[1][0])[:80]} instead of self.{source}", n
+            if not src_ok(e[2]['x'][0]):
+                return False, f"iterates {r.long(e[1][0])[:80]} instead of the expected collection", n
         present = []
         rel = []
         for a, v in r.cond:
@@ -408,7 +411,11 @@ def max_over_all(ctx, body, arg_names, effects, base, elem, elem_of, source, nee
             if info.get('kind') == 'ord':
                 rel.append((T.strip_refs(info['a']), T.strip_refs(info['b']), v))
                 continue
+            if accept_atom is not None and accept_atom(a, v, info, r):
+                continue
             return False, f"the result depends on a condition besides the length of the collection: {a[:100]} = {v}", n
+        if counts is not None:
+            present = [k for k in present if counts(k, r)]
         leaves = [T.strip_refs(l) for l in T.max_leaves(I_x(r.result))]
         got_base = [l for l in leaves if base(l)]
         rest = [l for l in leaves if not base(l)]
@@ -455,7 +462,7 @@ def max_over_all(ctx, body, arg_names, effects, base, elem, elem_of, source, nee
         lens.add(len(present))
         n += 1
     if not {0, 1, 2} <= lens:
-        raise CheckError(f"R02.4 {body.path}: form not recognised (collection lengths seen: {sorted(lens)})")
+        raise CheckError(f"{rule} {body.path}: form not recognised (collection lengths seen: {sorted(lens)})")
     return True, '', n
 
 
